@@ -32,6 +32,8 @@ Proj(o) == [fmt |-> o.fmt, codes |-> o.codes, cfg |-> o.cfg, st |-> o.st]
 ValueProp(a) == CASE a.act \in {"New", "NewLike", "Store", "SetItem"} -> "C01" [] a.act = "SetItemFxp" -> "C10"
                   [] a.act \in {"Resize", "CtorLike", "Like", "LikeShallow", "Assign", "DeepCopy", "CopyShallow"} -> "C10"
                   [] a.act = "BinOp" -> "C07" [] a.act = "BinOpOut" -> "C08" [] a.act = "Neg" -> "C08" [] a.act \in {"RShiftKeep", "LShiftKeep"} -> "C14" [] a.act = "Invert" -> "C13"
+                  [] a.act \in {"BitOp", "BitMask"} -> "C13" [] a.act = "ShiftExpand" -> "C14" [] a.act = "Reduce" -> "C15"
+                  [] a.act = "BinOpConst" -> "C08" [] a.act = "IOp" -> "C07" [] a.act = "SetRaw" -> "C01"
                   [] OTHER -> "C20"
 \* compare one object; returns TRUE iff it agrees (prints the first differing field otherwise)
 AgreeObj(e, x, exp, got, isTarget) ==
@@ -69,7 +71,7 @@ Judge(e, S1) ==
    LET tgt == Sys!Target(e.a) IN
    /\ \A x \in ObjS : AgreeObj(e, x, S1.objs[x], e.obs[x], x = tgt)
    /\ \A x \in ObjS : WellFormedObs(e, x, e.obs[x])
-   /\ (e.a.act \in {"Store", "SetItem", "SetItemFxp"} => Chk(e.cb = Sys!CbStep(IF e.i = 1 THEN Sys!InitS ELSE st, e.a), e, ObjIdx(tgt), "C04", "callbacks"))
+   /\ (e.a.act \in {"Store", "SetItem", "SetItemFxp", "SetRaw"} => Chk(e.cb = Sys!CbStep(IF e.i = 1 THEN Sys!InitS ELSE st, e.a), e, ObjIdx(tgt), "C04", "callbacks"))
    /\ (e.a.act = "SetCfgBad" => Chk(e.raised, e, ObjIdx(tgt), "C20", "invalid-config-accepted"))
    /\ (e.a.act # "SetCfgBad" => Chk(~e.raised, e, 0, ValueProp(e.a), "raised." \o e.err))
    /\ Chk(e.cont, e, 0, "C20", "input-container-modified")
